@@ -58,7 +58,9 @@ func (e *Engine) callFuncV(fr *Frame, st *State, f FuncV, args []Value, ins ssa.
 	}
 	// function-type contract, keyed by the named func type if any
 	e.noteAssumption("call of unknown function value in " + funcKey(fr.fn) + ": result unconstrained, no effect on modelled memory")
-	return []Outcome{{st: st, results: e.freshResults(st, sig)}}
+	res1 := e.freshResults(st, sig)
+	e.propagateTaint(st, args, res1)
+	return []Outcome{{st: st, results: res1}}
 }
 
 func (e *Engine) freshResults(st *State, sig *types.Signature) []Value {
@@ -139,7 +141,9 @@ func (e *Engine) invoke(fr *Frame, st *State, recv IfaceV, m *types.Func, args [
 		}
 	}
 	e.noteAssumption("interface method " + keys[0] + " has no contract: result unconstrained, no effect on modelled memory")
-	return []Outcome{{st: st, results: e.freshResults(st, sig)}}
+	res0 := e.freshResults(st, sig)
+	e.propagateTaint(st, append([]Value{recv}, args...), res0)
+	return []Outcome{{st: st, results: res0}}
 }
 
 // callMethod calls concrete method fn with receiver payload rv of dynamic type dyn.
@@ -233,7 +237,9 @@ func (e *Engine) callFn(fr *Frame, st *State, fn *ssa.Function, args []Value, bo
 	}
 	if !canInline {
 		e.noteAssumption("external call " + key + ": result unconstrained, no effect on modelled memory")
-		return []Outcome{{st: st, results: e.freshResults(st, fn.Signature)}}
+		res := e.freshResults(st, fn.Signature)
+		e.propagateTaint(st, args, res)
+		return []Outcome{{st: st, results: res}}
 	}
 	cf := &Frame{fn: fn, env: map[ssa.Value]Value{}, con: con, depth: fr.depth + 1, parent: fr, visits: map[int]int{}}
 	cf.callPath = fr.callPath + "@" + key
@@ -394,6 +400,36 @@ func (e *Engine) tryMerge(a, b Outcome, nPC int) (Outcome, bool) {
 	if len(a.st.inLoop) != len(b.st.inLoop) {
 		return a, false
 	}
+	for o, b := range a.st.taint {
+		ns.taintSet(o, b)
+	}
+	for o, b := range b.st.taint {
+		ns.taintSet(o, b)
+	}
+	for o, ks := range a.st.taintKey {
+		for k := range ks {
+			ns.taintKeysAdd(o, k)
+		}
+	}
+	for o, ks := range b.st.taintKey {
+		for k := range ks {
+			ns.taintKeysAdd(o, k)
+		}
+	}
+	for o, ex := range a.st.sliceExcl {
+		if bx, ok := b.st.sliceExcl[o]; ok {
+			both := map[string]bool{}
+			for k := range ex {
+				if bx[k] {
+					both[k] = true
+				}
+			}
+			if ns.sliceExcl == nil {
+				ns.sliceExcl = map[*Obj]map[string]bool{}
+			}
+			ns.sliceExcl[o] = both
+		}
+	}
 	ns.pc = append(append([]*Term(nil), a.st.pc[:nPC]...), Or(da, db))
 	// both deltas imply their side of the merged values: (da -> merged==a) holds by
 	// construction of ite(da, a, b) only if da and db are mutually exclusive or the
@@ -483,7 +519,7 @@ func sameValue(a, b Value) bool {
 			return false
 		}
 		if x.Sym != nil || y.Sym != nil {
-			return x.Sym == y.Sym
+			return x.Sym == y.Sym || x.Sym.ID == y.Sym.ID
 		}
 		if x.Dyn == nil || y.Dyn == nil {
 			return x.Dyn == nil && y.Dyn == nil
@@ -630,6 +666,15 @@ func (e *Engine) applyContract(fr *Frame, st *State, con *Contract, sig *types.S
 		st.ghost[g] = Num(val)
 	}
 	res := e.freshResults(st, sig)
+	// default taint flow of a contract that does not state one: results and modified
+	// locations carry the labels of the arguments
+	var tb uint8
+	if !con.TaintAware {
+		for _, a := range args {
+			tb |= e.taintBits(st, a, 0)
+		}
+		tb &^= 128
+	}
 	for i, name := range con.Results {
 		if i < len(res) {
 			ctx.bind[name] = res[i]
@@ -806,6 +851,20 @@ func (e *Engine) applyContract(fr *Frame, st *State, con *Contract, sig *types.S
 	var live []Outcome
 	for _, o := range outs {
 		if !o.st.dead {
+			if tb != 0 {
+				for i := range o.results {
+					o.results[i] = e.taintValue(o.st, o.results[i], tb)
+				}
+				cx := *ctx
+				cx.st = o.st
+				cx.pend = nil
+				cx.setVar = nil
+				for _, m := range con.Modifies {
+					if l, ok := cx.loc(m); ok && l.Ghost == "" {
+						cx.taintExpr(m, tb)
+					}
+				}
+			}
 			live = append(live, o)
 		}
 	}
